@@ -226,6 +226,24 @@ def run_impl(case):
                        "docinfo_encoding": el.getroottree().docinfo.encoding}
     except Exception as e:  # noqa: BLE001
         res["lxml_err"] = f"{type(e).__name__}: {e}"
+    # a second serialization after comments/PIs were added next to the root through the *node* API (not through the
+    # prologue/epilogue containers): what is written follows the live tree (seeded C12-7: containers that remember)
+    if case.get("late", True):
+        try:
+            from delb import new_comment_node, new_processing_instruction_node
+
+            doc2 = build_doc(case)
+            keep2 = list(doc2.root.iterate_descendants())  # noqa: F841
+            str(doc2)  # a first serialization reads both containers
+            doc2.root.add_following_siblings(new_comment_node("late-after"))
+            doc2.root.add_preceding_siblings(new_processing_instruction_node("late", "before"))
+            if len(doc2.prologue) > 1:
+                doc2.prologue[0].add_preceding_siblings(new_comment_node("late-first"))
+            buf = trees.KeepBytesIO()
+            doc2.write(buf)
+            res["late"] = {"observed": observe(doc2), "reread": observe(Document(buf.value()))}
+        except Exception as e:  # noqa: BLE001
+            res["late"] = {"err": f"{type(e).__name__}: {e}"}
     # root replacement: the current root assigned again (a transformation that works in place and returns its argument)
     # is a replacement as well
     try:
@@ -363,6 +381,21 @@ def judge(run: Run, stream, case, res, models):
         if de is None or codecs.lookup(de).name != codecs.lookup(enc).name:
             run.violation(stream, case, {"why": "lxml sees another encoding", "lxml": de, "used": enc})
     # 3. root replacement
+    if "late" in res:
+        late = res["late"]
+        want_late = {"root": res["after"]["root"],
+                     "prologue": ([["c", "late-first"]] if res["after"]["prologue"] else []) + res["after"]["prologue"]
+                     + [["p", "late", "before"]],
+                     "epilogue": [["c", "late-after"]] + res["after"]["epilogue"]}
+        if "err" in late:
+            run.violation(stream, case, {"why": f"adding comments/PIs next to the root and writing again raised {late['err']}"})
+        else:
+            for k in ("observed", "reread"):
+                got = late[k]
+                if got["prologue"] != want_late["prologue"] or got["epilogue"] != want_late["epilogue"] or (
+                        k == "observed" and got["root"] != want_late["root"]):
+                    run.violation(stream, case, {"why": f"second serialization after adding root siblings through the node API: {k} "
+                                                        "prologue/epilogue differ from the live tree", "got": got, "want": want_late})
     if res.get("self_assigned") != res["after"]:
         run.violation(stream, case, {"why": "assigning the document's own root again changed the document", "got": res.get("self_assigned")})
     if case["newroot"] is not None:
@@ -482,9 +515,33 @@ def check(run: Run, lean: dict) -> int:
         if f.get("status") == "open":
             print(f"KNOWN-FINDING: property=C12 {f['key']}: {f['description']}")
             run.known_hit.append(f["key"])
+            if f["key"] == "python-only-encoding-label":
+                run.extra["python_only_labels_replayed"] = replay_labels(f["replay"])
     run_cases(run, corpus(), "corpus", ok)
     run_cases(run, [gen_case(run.rng) for _ in range(n)], "generated", ok)
     return run.finish(lean, LEVEL, ASSUME, search=search)
+
+
+def replay_labels(rep: dict) -> dict:
+    """the open finding python-only-encoding-label: which of the recorded labels still give an unreadable file"""
+    import io
+
+    from delb import Document
+
+    class Keep(io.BytesIO):
+        def close(self):
+            pass
+
+    out = {}
+    for label in [rep["encoding"]] + rep.get("labels_failing_alike", []):
+        buf = Keep()
+        try:
+            Document(rep["xml"]).write(buf, encoding=label)
+            back = Document(buf.getvalue())
+            out[label] = "reads back" if str(back.root) == rep["xml"] else "reads back differently"
+        except Exception as e:  # noqa: BLE001
+            out[label] = type(e).__name__
+    return out
 
 
 def search(run: Run):
